@@ -64,7 +64,7 @@ let main file prop =
                      | None -> "model-out-of-fuel") in
                  let rtoks = split_ws rhs in
                  let code_dgs = (match rtoks with
-                     | "panic" :: _ -> None
+                     | "panic" :: _ | "hang" :: _ -> None
                      | _ :: ds -> Some (List.map str_of_hexbytes ds)
                      | [] -> None) in
                  let key = Digest.string lhs in
